@@ -38,7 +38,7 @@ SPEC = {
     "tr_radius.alpha2": ('float', False, 0.0, 1.0),
     "model.abs_tol": ('float', False, 0.0, None),
     "model.rel_tol": ('float', False, 0.0, 1.0),
-    "slow.history_for_slow": ('int', False, 0, None),
+    "slow.history_for_slow": ('int', False, 1, None),      # (0 made the slow-iteration test divide by zero: fixed in /repo, range now starts at 1)
     "slow.thresh_for_slow": ('float', False, 0.0, None),
     "slow.max_slow_iters": ('int', False, 0, None),
     "noise.quit_on_noise_level": ('bool', False, None, None),
@@ -293,6 +293,56 @@ def body_args(E, n, bounds_kind, with_h, with_proj):
     _judge(E, kind_out, out, BAD, GOOD, 'args')
 
 
+def body_bound_shapes(E, n, which, scaling, with_proj):
+    """a bound array whose length differs from len(x0) is invalid input: reported as an input error - also when the bounds are used for
+    internal scaling or turned into a box projector before the shape test is reached"""
+    x0 = E.vec('x0_', n, lo=-1000, hi=1000)
+    xl = E.vec('xl', n + (1 if which in ('lower', 'both') else 0), lo=-3000, hi=-2000)
+    xu = E.vec('xu', n + (1 if which in ('upper', 'both') else 0), lo=2000, hi=3000)
+    kwargs = dict(bounds=(xl, xu), scaling_within_bounds=scaling, rhobeg=E.const('0.1'), rhoend=E.const('0.001'))
+    if with_proj:
+        kwargs['projections'] = [lambda w: w]
+    kind_out, out = _call_solve(E, kwargs, x0)
+    _judge(E, kind_out, out, True, False, 'bound-shapes')
+
+
+def body_slow_iters(E):
+    """every value of slow.history_for_slow that the parameter table accepts must be usable: the slow-iteration test never raises
+    (history lengths 0..history+1, any objective history)"""
+    from ..state import mk_controller
+    C, M, ghost, params = mk_controller(E, 1, 1, 2, 2, with_save=False, objfun=None)
+    # (a stored objective at or below the small-objective threshold ends the run before this test is reached: INV of DESIGN section 3)
+    thr = M.min_objective_value()
+    E.assume(E.all([E.no(M.objval[k] <= thr) for k in range(2)]))
+    lo = params.param_type("slow.history_for_slow", 2)[2]
+    hist = int(E.int('history_for_slow', lo if lo is not None else -2, 3))
+    params.params["slow.history_for_slow"] = hist
+    k = int(E.int('stored', 0, hist + 1))
+    C.last_iters_step_taken = [E.int('it%d' % i, 0, None) for i in range(k)]
+    C.last_fopts_step_taken = [E.real('fo%d' % i, npy=False, lo=1) for i in range(k)]
+    C.num_slow_iters = E.int('nslow', 0, 3)
+    try:
+        C.terminate_from_slow_iterations(E.int('iter', 0, None), params)
+    except Exception as e:      # noqa
+        E.fail('slow-iterations:raises-%s[history_for_slow=%d]' % (type(e).__name__, hist), detail=str(e)[:120])
+        return
+    E.reach('slow-iterations:returned')
+
+
+def body_npt_coord(E, n):
+    """contradictory options: more interpolation points than a full quadratic has coefficients together with a forced coordinate
+    initialisation (by default the solver switches to random initial directions for such npt)"""
+    x0 = E.vec('x0_', n, lo=-1000, hi=1000)
+    npt = E.int('npt', n + 1, (n + 1) * (n + 2) // 2 + 3)
+    forced = bool(E.is_true(E.bool('coordinate_init_forced')))
+    kwargs = dict(npt=npt, rhobeg=E.const('0.1'), rhoend=E.const('0.001'))
+    if forced:
+        kwargs['user_params'] = {'init.random_initial_directions': False}
+    BAD = E.all([forced, npt > (n + 1) * (n + 2) // 2])
+    kind_out, out = _call_solve(E, kwargs, x0)
+    _judge(E, kind_out, out, BAD, E.no(BAD), 'npt-vs-coordinate-init')
+
+
 def body_param(E, n, key, kind):
     """one user parameter of every kind, symbolic magnitude; everything else valid"""
     x0 = E.vec('x0_', n)
@@ -479,6 +529,20 @@ def harnesses(tier, seed):
                                       params=dict(n=n, bounds_kind=bk, with_h=with_h, with_proj=with_proj), cfg=cfg, functions=FUNCS,
                                       bounds="n=%d; npt, maxfun symbolic ints, rhobeg/rhoend/lh/bounds/x0 symbolic reals (|x0|, rhobeg, rhoend <= 1e15), each optional argument given or not" % n,
                                       assumptions=common, nproc=1, expect=['args:bad-input-is-reported']))
+    for n_ in (1, 2):
+        hs.append(Harness("npt-vs-coordinate-init[n=%d]" % n_, 'dfverif.checks.c07', 'body_npt_coord', params=dict(n=n_), cfg=cfg, functions=FUNCS,
+                          bounds="n=%d, npt from n+1 to (n+1)(n+2)/2+3, init.random_initial_directions forced off or left to its default" % n_,
+                          assumptions=common, nproc=1, expect=['npt-vs-coordinate-init:bad-input-is-reported']))
+    hs.append(Harness("slow-iterations[any-legal-history]", 'dfverif.checks.c07', 'body_slow_iters', params={}, cfg=core.Cfg(qtimeout_ms=20000, uflin=True),
+                      functions=['controller.Controller.terminate_from_slow_iterations', 'params.ParameterList.param_type'],
+                      bounds="slow.history_for_slow from the lower end of its accepted range up to 3, 0..history+1 stored iterations, objective history >= 1",
+                      assumptions=["math.log: uninterpreted strictly monotone function"], nproc=1, expect=['slow-iterations:returned']))
+    for which in ('lower', 'upper', 'both'):
+        for (scaling, with_proj) in ((False, False), (True, False), (False, True)):
+            hs.append(Harness("bound-shapes[n=2,%s,scaling=%d,proj=%d]" % (which, scaling, with_proj), 'dfverif.checks.c07', 'body_bound_shapes',
+                              params=dict(n=2, which=which, scaling=scaling, with_proj=with_proj), cfg=cfg, functions=FUNCS,
+                              bounds="n=2, the named bound array(s) have one entry too many, everything else valid", assumptions=common, nproc=1,
+                              expect=[]))
     for key in KEYS + ['no.such.parameter']:
         for kind in KINDS:
             hs.append(Harness("param[%s=%s]" % (key, kind), 'dfverif.checks.c07', 'body_param',
